@@ -23,7 +23,7 @@ from __future__ import annotations
 import ast
 from typing import Any, Dict, List, Optional, Tuple, Iterable, Set
 
-from .model import Program, Func, Class, unparse, f_cls, const_str
+from .model import Program, Func, Class, unparse, f_cls, const_str, NOT_CONST
 from .inline import InlineBlock, InlineJump
 
 Term = Tuple[Any, ...]
@@ -392,6 +392,11 @@ class StoreModel:
         if isinstance(e, ast.Name):
             if e.id in env:
                 return env[e.id]
+            cv = self.prog.const_of(f, e.id)
+            if isinstance(cv, str):
+                return ("lit", cv)  # a module-level constant for a repeated literal ('blobs', '.meta', 'wb')
+            if cv is not NOT_CONST:
+                return ("const", cv)
             return ("sym", e.id)
         if isinstance(e, ast.Attribute):
             if isinstance(e.value, ast.Name) and e.value.id == "self":
